@@ -49,6 +49,7 @@ pub struct PanicInfo {
 
 thread_local! {
     static LAST_PANIC: RefCell<Option<PanicInfo>> = const { RefCell::new(None) };
+    static GUARD_DEPTH: std::cell::Cell<u32> = const { std::cell::Cell::new(0) };
 }
 
 /// Install a quiet hook that records message and location per thread.
@@ -65,6 +66,10 @@ pub fn install_panic_hook() {
             .location()
             .map(|l| format!("{}:{}", l.file(), l.line()))
             .unwrap_or_default();
+        // a panic outside any `guard` is a harness bug or an abort path: make it visible
+        if GUARD_DEPTH.with(|d| d.get()) == 0 {
+            eprintln!("UNGUARDED PANIC: {msg} @ {loc}");
+        }
         LAST_PANIC.with(|p| *p.borrow_mut() = Some(PanicInfo { msg, loc }));
     }));
 }
@@ -72,7 +77,10 @@ pub fn install_panic_hook() {
 /// Run `f`, turning a panic into `Err(PanicInfo)`.
 pub fn guard<T>(f: impl FnOnce() -> T) -> Result<T, PanicInfo> {
     LAST_PANIC.with(|p| *p.borrow_mut() = None);
-    match catch_unwind(AssertUnwindSafe(f)) {
+    GUARD_DEPTH.with(|d| d.set(d.get() + 1));
+    let r = catch_unwind(AssertUnwindSafe(f));
+    GUARD_DEPTH.with(|d| d.set(d.get().saturating_sub(1)));
+    match r {
         Ok(v) => Ok(v),
         Err(_) => Err(LAST_PANIC
             .with(|p| p.borrow_mut().take())
